@@ -42,11 +42,16 @@ TRUSTED = [
 ASSUMPTIONS = ['per-observation values inside the trajectory are positive (the engine computes exp of the sum of logs)', 'ids are mapped to integers preserving order and equality']
 RULE = (
     'panel table: 1-8 individuals x 1-5 rows, ids from {negative, large, non-consecutive, half-integers}, individuals in random order, contiguous or interleaved; '
-    'formulas traj / Monte-Carlo(traj) with 1-2 user draw variables, R in {1,2,3,5}; non-trivial = >= 2 individuals with unequal block sizes'
+    'formulas traj / Monte-Carlo(traj) with 1-2 user draw variables, R in {1,2,3,5}; sequences simulate / likelihood / estimate(bootstrap) / simulate on one object; non-trivial = >= 2 individuals with unequal block sizes'
 )
 
 WHERE_DICT = 'BIOGEME.__init__ with a dict of formulas on panel data: variables outside PanelLikelihoodTrajectory'
-MATCHERS = {'dict_path': lambda case: isinstance(case, dict) and case.get('dict_path') is True}
+WHERE_BOOT_L = 'calculate_likelihood right after estimate(run_bootstrap=True) on the same object (engine keeps the last bootstrap sample)'
+WHERE_SEQ = 'sequence of simulate / calculate_likelihood / estimate on one panel BIOGEME object'
+MATCHERS = {
+    'dict_path': lambda case: isinstance(case, dict) and case.get('dict_path') is True,
+    'after_bootstrap': lambda case: isinstance(case, dict) and case.get('step') == 'likelihood-right-after-bootstrap',
+}
 
 TOML = core.TOML_MINIMAL
 
@@ -470,6 +475,99 @@ def check_case(ctx, res, case, rng):
         res.violate('log likelihood does not depend on the order of individuals / rows', desc, v2['L'], v['L'], where='order of the rows in a panel table')
 
 
+# ----------------------------------------------------------------------------- sequences on one object
+
+SEQ_TOML = core.TOML_MINIMAL.replace('save_iterations = "False"', 'save_iterations = "False"\nbootstrap_samples = {B}') + '[Output]\ngenerate_html = "False"\ngenerate_pickle = "False"\n'
+
+
+def gen_seq_case(rng):
+    while True:
+        t = gen_table(rng, contiguous=True)
+        if len({r[0] for r in t['rows']}) >= 3:
+            break
+    return {'table': t, 'b0': rng.randint(-8, 8) / 8.0, 'np_seed': rng.randint(1, 10**6), 'samples': rng.choice([2, 3, 4]), 'threads': rng.choice([1, 2, 3])}
+
+
+def run_sequence(case):
+    """one panel BIOGEME object, used for: simulate, likelihood, simulate, estimate with bootstrap,
+    likelihood, simulate, likelihood, simulate, estimate without bootstrap, simulate"""
+    import biogeme.biogeme as bio
+    import biogeme.database as db
+    from biogeme.expressions import Beta, Variable, exp, log, PanelLikelihoodTrajectory
+
+    np.random.seed(case['np_seed'])
+    out = []
+    with core.scratch(SEQ_TOML.format(B=case['samples'])):
+        d = db.Database('t', make_df(case['table']))
+        d.panel('ID')
+        b = Beta('b', 0.0, None, None, 0)
+        P, X = Variable('P'), Variable('X')
+        formulas = {
+            'log_like': log(PanelLikelihoodTrajectory(P * exp(-(b - X) * (b - X)))),
+            'traj': PanelLikelihoodTrajectory(P),
+        }
+        B = bio.BIOGEME(d, formulas, number_of_threads=case['threads'])
+        B.modelName = 'seq'
+        x = [case['b0']]
+
+        def sim(step):
+            s = B.simulate({'b': case['b0']})
+            out.append({'step': step, 'ids': [float(i) for i in s.index], 'log_like': [float(v) for v in s['log_like'].values], 'traj': [float(v) for v in s['traj'].values]})
+
+        def like(step):
+            out.append({'step': step, 'L': float(B.calculate_likelihood(x, scaled=False)), 'Ls': float(B.calculate_likelihood(x, scaled=True))})
+
+        sim('simulate-first')
+        like('likelihood-after-simulate')
+        sim('simulate-after-likelihood')
+        B.estimate(run_bootstrap=True)
+        like('likelihood-right-after-bootstrap')
+        sim('simulate-after-bootstrap')
+        like('likelihood-after-bootstrap-and-simulate')
+        sim('simulate-again')
+        B.estimate()
+        sim('simulate-after-estimate')
+        like('likelihood-after-estimate')
+    return out
+
+
+def check_sequence(ctx, res, case):
+    desc0 = dict(case)
+    iso_f.note(dict(desc0, step='sequence'), WHERE_SEQ)
+    try:
+        steps = run_sequence(case)
+    except Exception as e:  # noqa: BLE001
+        res.violate(f'a sequence of simulate / likelihood / estimate on one panel object raises {type(e).__name__}: {str(e)[:150]}', dict(desc0, step='sequence'), core.exc_kind(e), 'values', where=WHERE_SEQ)
+        return
+    res.count({'sequence': desc0}, nontrivial=True)
+    res.tally('sequence')
+    rows = case['table']['rows']
+    ids = sorted({float(r[0]) for r in rows})
+    b0 = case['b0']
+    # oracle from the statement, straight from the table
+    exp_traj = {a: math.prod(r[1] for r in rows if float(r[0]) == a) for a in ids}
+    exp_ll = {a: math.fsum(math.log(r[1]) - (b0 - r[2]) ** 2 for r in rows if float(r[0]) == a) for a in ids}
+    exp_L = math.fsum(exp_ll.values())
+    for st in steps:
+        desc = dict(desc0, step=st['step'])
+        if 'L' in st:
+            where = WHERE_BOOT_L if st['step'] == 'likelihood-right-after-bootstrap' else WHERE_SEQ
+            if not core.close(st['L'], exp_L, rel=1e-10, abs_=1e-10):
+                res.violate(f'log likelihood ({st["step"]}) = sum over individuals of the log of the product over their rows', desc, st['L'], exp_L, where=where)
+            elif not core.close(st['Ls'], st['L'] / len(ids), rel=1e-15):
+                res.violate(f'scaled log likelihood ({st["step"]}) = log likelihood / number of individuals', desc, st['Ls'], st['L'] / len(ids), where=where)
+            continue
+        if sorted(st['ids']) != ids:
+            res.violate(f'simulate ({st["step"]}) reports one line per individual', desc, st['ids'], ids, where=WHERE_SEQ)
+            continue
+        for a, tv, lv in zip(st['ids'], st['traj'], st['log_like']):
+            if not core.close(tv, exp_traj[a], rel=1e-11) or not core.close(lv, exp_ll[a], rel=1e-10, abs_=1e-11):
+                res.violate(
+                    f'simulate ({st["step"]}): the value reported for individual {a} = product over exactly the rows of that individual', desc,
+                    {'traj': tv, 'log_like': lv}, {'traj': exp_traj[a], 'log_like': exp_ll[a]}, where=WHERE_SEQ)
+                break
+
+
 # ----------------------------------------------------------------------------- placement rule
 
 
@@ -591,10 +689,15 @@ def check_impl(ctx) -> Result:
     # known finding F-C09-1 (dict of formulas): concrete input first
     check_audit(ctx, res, {'k': 'bin', 'op': '+', 'l': {'k': 'traj', 'e': {'k': 'var', 'n': 'P'}}, 'r': {'k': 'var', 'n': 'X'}}, dict_path=True)
     check_audit(ctx, res, {'k': 'bin', 'op': '+', 'l': {'k': 'traj', 'e': {'k': 'var', 'n': 'P'}}, 'r': {'k': 'var', 'n': 'X'}}, dict_path=False)
+    known = (WHERE_DICT, WHERE_BOOT_L)
+    # one object used for several calls in a row, with an estimation (bootstrap) in between
+    check_sequence(ctx, res, {'table': CORPUS_TABLES[1], 'b0': 0.25, 'np_seed': 2026, 'samples': 3, 'threads': 2})
+    for _ in range(ctx.n(8, 150)):
+        check_sequence(ctx, res, gen_seq_case(rng))
     for _ in range(ctx.n(120, 2500)):
         case = gen_case(rng)
         check_case(ctx, res, case, rng)
-        if len(res.violations) > 5:
+        if len([v for v in res.violations if v.get('where') not in known]) > 5:
             break
     for _ in range(ctx.n(60, 1200)):
         check_audit(ctx, res, gen_tree(rng, rng.randint(1, 4)), dict_path=False)
@@ -631,7 +734,11 @@ def replay_impl(ctx, obj):
     out = {'replayed': obj.get('what')}
     c2 = _Ctx2(core.rng_for('C09-replay', 0))
     r = Result()
-    if 'tree' in case:
+    if 'np_seed' in case:
+        check_sequence(c2, r, {k: v for k, v in case.items() if k != 'step'})
+        if case.get('step') and case['step'] != 'sequence':
+            r.violations = [v for v in r.violations if v['case'].get('step') == case['step']]
+    elif 'tree' in case:
         check_audit(c2, r, case['tree'], dict_path=bool(case.get('dict_path')))
     elif 'formula' in case and 'table' in case:
         check_case(c2, r, {k: v for k, v in case.items() if k != 'reordered'}, c2.rng)
